@@ -466,7 +466,7 @@ class MolGraph:
         :return: this object (self) or a new instance of self.__class__
         """
         atom_attrs = {
-            mapping.get(atom, atom): attrs
+            mapping.get(atom, atom): attrs.copy()
             for atom, attrs in self._atom_attrs.items()
         }
         neighbors = {
@@ -475,7 +475,7 @@ class MolGraph:
         }
 
         bond_attrs = {
-            Bond({mapping.get(atom, atom) for atom in bond}): attrs
+            Bond({mapping.get(atom, atom) for atom in bond}): attrs.copy()
             for bond, attrs in self._bond_attrs.items()
         }
         if copy is True:
@@ -528,9 +528,9 @@ class MolGraph:
         :return: Subgraph
         """
         new_atoms = set(atoms)
-        atom_attrs = {atom: self._atom_attrs[atom] for atom in atoms}
+        atom_attrs = {atom: self._atom_attrs[atom].copy() for atom in atoms}
         bond_attrs = {
-            bond: attrs
+            bond: attrs.copy()
             for bond, attrs in self._bond_attrs.items()
             if new_atoms.issuperset(bond)
         }
@@ -594,8 +594,10 @@ class MolGraph:
         """
         new_graph = cls()
         for mol_graph in mol_graphs:
-            new_graph._atom_attrs.update(mol_graph._atom_attrs)
-            new_graph._bond_attrs.update(mol_graph._bond_attrs)
+            for atom, attrs in mol_graph._atom_attrs.items():
+                new_graph._atom_attrs[atom] = attrs.copy()
+            for bond, attrs in mol_graph._bond_attrs.items():
+                new_graph._bond_attrs[bond] = attrs.copy()
 
             for atom, neighbors in mol_graph._neighbors.items():
                 new_graph._neighbors.setdefault(atom, set()).update(neighbors)
